@@ -1,10 +1,10 @@
 (* C46  RLP decoding accepts exactly canonical encodings and never crashes.
-   Property theorems only; the model is C46/Model.v (transcription of stdlib/rlp/rlp.go and of the
-   wrappers in stdlib/rlp.go), the specification is C46/Spec.v (reference encoder), proofs are in
+   Property theorems only; the model is C46/Model.v (transcription of stdlib/rlp/rlp.go as of commit 8b09734 and of
+   the wrappers in stdlib/rlp.go), the specification is C46/Spec.v (reference encoder), proofs are in
    C46/Proofs.v and C46/Proofs2.v.
    Hypotheses common to all statements: the input is a list of bytes, shorter than 2^62
    (true of every Go slice). *)
-From CV Require Import C46.Model C46.Spec C46.Proofs C46.Cases C46.Proofs2.
+From CV Require Import C46.Model C46.Spec C46.Proofs C46.Proofs2.
 
 (* ---- every canonical encoding is accepted and decodes to what was encoded ---- *)
 
@@ -29,120 +29,58 @@ Theorem C46_decode_encode_nested : forall l,
 Proof. exact rlp_decode_encode_nested. Qed.
 Print Assumptions C46_decode_encode_nested.
 
-(* ---- decodeString: exactly the canonical encodings, user error otherwise (outside the crash class) ---- *)
+(* ---- exactly the canonical encodings: value for those, user error for every other input ---- *)
 
-Theorem C46_string_exact_partial : forall inp,
-  bytes inp -> len inp < 2 ^ 62 -> ~ string_crash inp ->
-  string_decoder_exact rlp_decode_string inp.
+Theorem C46_string_exact : forall inp,
+  bytes inp -> len inp < 2 ^ 62 -> string_decoder_exact rlp_decode_string inp.
 Proof. exact rlp_string_exact. Qed.
-Print Assumptions C46_string_exact_partial.
+Print Assumptions C46_string_exact.
 
-(* the crash class of decodeString is exact *)
-Theorem C46_string_crash_exact : forall inp,
-  bytes inp -> len inp < 2 ^ 62 -> (rlp_decode_string inp = Err Crash <-> string_crash inp).
-Proof. exact rlp_string_crash_iff. Qed.
-Print Assumptions C46_string_crash_exact.
-
-(* ---- decodeList ---- *)
-
-(* what it accepts, exactly (outside the crash class): framings of items that are canonical or of the
-   non-canonical form 0x81 x with x < 0x80 *)
-Theorem C46_list_accepts_partial : forall inp,
-  bytes inp -> len inp < 2 ^ 62 -> no_huge_len inp ->
-  list_decoder_accepts rlp_decode_list inp.
-Proof. exact rlp_list_accepts. Qed.
-Print Assumptions C46_list_accepts_partial.
-
-(* the property's statement for decodeList, and its refutation: [0xc2,0x81,0x05] is accepted *)
-Definition C46_list_exact_statement : Prop :=
-  forall inp, bytes inp -> len inp < 2 ^ 62 -> no_huge_len inp -> list_decoder_exact rlp_decode_list inp.
-
-Theorem C46_list_exact_refuted :
-  exists inp, bytes inp /\ len inp < 2 ^ 62 /\ no_huge_len inp /\ ~ list_decoder_exact rlp_decode_list inp.
-Proof. exact rlp_list_exact_refuted. Qed.
-Print Assumptions C46_list_exact_refuted.
-
-(* it holds under the guard that excludes exactly that item form *)
-Theorem C46_list_exact_partial : forall inp,
-  bytes inp -> len inp < 2 ^ 62 -> no_huge_len inp ->
-  (forall items, accepted_list inp items -> Forall item_ok items) ->
-  list_decoder_exact rlp_decode_list inp.
+Theorem C46_list_exact : forall inp,
+  bytes inp -> len inp < 2 ^ 62 -> list_decoder_exact rlp_decode_list inp.
 Proof. exact rlp_list_exact. Qed.
-Print Assumptions C46_list_exact_partial.
+Print Assumptions C46_list_exact.
 
-(* without any guard: whatever decodeList returns is the framing of the returned items *)
-Theorem C46_list_sound : forall inp items,
-  bytes inp -> len inp < 2 ^ 62 -> rlp_decode_list inp = Ok items -> accepted_list inp items.
-Proof. exact rlp_list_sound. Qed.
-Print Assumptions C46_list_sound.
+Theorem C46_string_rejects_noncanonical : forall inp,
+  bytes inp -> len inp < 2 ^ 62 -> (forall p, ~ canonical_string inp p) -> rlp_decode_string inp = Err UserOther.
+Proof. exact string_rejects_noncanonical. Qed.
+Print Assumptions C46_string_rejects_noncanonical.
 
-(* ---- never crash ---- *)
+Theorem C46_list_rejects_noncanonical : forall inp,
+  bytes inp -> len inp < 2 ^ 62 -> (forall items, ~ canonical_list inp items) -> rlp_decode_list inp = Err UserOther.
+Proof. exact list_rejects_noncanonical. Qed.
+Print Assumptions C46_list_rejects_noncanonical.
+
+(* the list-item rule: an item 0x81 x with x < 0x80 is never returned *)
+Theorem C46_list_item_rule : forall inp items,
+  bytes inp -> len inp < 2 ^ 62 -> Exists item_nc1 items -> rlp_decode_list inp <> Ok items.
+Proof. exact list_with_nc1_item_rejected. Qed.
+Print Assumptions C46_list_item_rule.
+
+(* ---- never crash, at full strength ---- *)
 
 Definition C46_never_crash_statement : Prop := never_crash_statement.
 
-(* refuted: index out of range after a 0x81 prefix; int overflow of start + length in DecodeString and
-   in the item loop of DecodeList (both long-form prefixes) *)
-Theorem C46_never_crash_witnesses :
-  (bytes w_index /\ len w_index < 2 ^ 62 /\ rlp_decode_string w_index = Err Crash) /\
-  (bytes w_overflow /\ len w_overflow < 2 ^ 62 /\ rlp_decode_string w_overflow = Err Crash) /\
-  (bytes w_list_overflow /\ len w_list_overflow < 2 ^ 62 /\ rlp_decode_list w_list_overflow = Err Crash) /\
-  (bytes w_list_overflow2 /\ len w_list_overflow2 < 2 ^ 62 /\ rlp_decode_list w_list_overflow2 = Err Crash).
-Proof. exact never_crash_witnesses. Qed.
-Print Assumptions C46_never_crash_witnesses.
-
-Theorem C46_never_crash_refuted : ~ C46_never_crash_statement.
-Proof. exact never_crash_refuted. Qed.
-Print Assumptions C46_never_crash_refuted.
-
-Theorem C46_never_crash_partial : forall inp,
-  bytes inp -> len inp < 2 ^ 62 -> ~ string_crash inp -> no_huge_len inp ->
-  graceful (rlp_decode_string inp) /\ graceful (rlp_decode_list inp).
-Proof. exact never_crash_partial. Qed.
-Print Assumptions C46_never_crash_partial.
-
-(* the crash class of decodeList is exact too (list_crash: a canonical list prefix passing the size test, well-framed
-   items covering less than the announced size, then an item prefix 0xbf/0xff whose 8-byte length overflows int) *)
-Theorem C46_list_crash_exact : forall inp,
-  bytes inp -> len inp < 2 ^ 62 -> (rlp_decode_list inp = Err Crash <-> list_crash inp).
-Proof. exact rlp_list_crash_iff. Qed.
-Print Assumptions C46_list_crash_exact.
-
-(* never_crash under the exact guard *)
-Theorem C46_never_crash_partial_exact : forall inp,
-  bytes inp -> len inp < 2 ^ 62 -> ~ string_crash inp -> ~ list_crash inp ->
-  graceful (rlp_decode_string inp) /\ graceful (rlp_decode_list inp).
-Proof. exact never_crash_partial_exact. Qed.
-Print Assumptions C46_never_crash_partial_exact.
-
-(* every crash of decodeList comes from a long-form prefix with an overflowing 8-byte length *)
-Theorem C46_list_crash_only_overflow : forall inp,
-  bytes inp -> len inp < 2 ^ 62 -> rlp_decode_list inp = Err Crash -> has_huge_len inp.
-Proof. exact rlp_list_crash_only_huge. Qed.
-Print Assumptions C46_list_crash_only_overflow.
+Theorem C46_never_crash : C46_never_crash_statement.
+Proof. exact never_crash. Qed.
+Print Assumptions C46_never_crash.
 
 (* no other outcome exists (no internal error; the loop fuel of the model is never exhausted) *)
 Theorem C46_outcome_classes : forall inp,
   bytes inp -> len inp < 2 ^ 62 ->
-  (exists p, rlp_decode_list inp = Ok p) \/ rlp_decode_list inp = Err UserOther \/ rlp_decode_list inp = Err Crash.
+  (exists p, rlp_decode_list inp = Ok p) \/ rlp_decode_list inp = Err UserOther.
 Proof. exact outcome_classes_list. Qed.
 Print Assumptions C46_outcome_classes.
 
-(* ---- with the defect classes mapped to user errors, the property holds at full strength ---- *)
-
-Theorem C46_repaired_string_exact : forall inp,
-  bytes inp -> len inp < 2 ^ 62 -> string_decoder_exact required_string inp.
-Proof. exact required_string_exact. Qed.
-Print Assumptions C46_repaired_string_exact.
-
-Theorem C46_repaired_list_exact : forall inp,
-  bytes inp -> len inp < 2 ^ 62 -> list_decoder_exact required_list inp.
-Proof. exact required_list_exact. Qed.
-Print Assumptions C46_repaired_list_exact.
-
-Theorem C46_repaired_never_crash : forall inp,
-  bytes inp -> len inp < 2 ^ 62 -> graceful (required_string inp) /\ graceful (required_list inp).
-Proof. exact required_graceful. Qed.
-Print Assumptions C46_repaired_never_crash.
+(* the inputs on which the code before commit 8b09734 panicked or accepted a non-canonical list *)
+Theorem C46_former_witnesses_rejected :
+  rlp_decode_string w_index = Err UserOther /\
+  rlp_decode_string w_overflow = Err UserOther /\
+  rlp_decode_list w_list_overflow = Err UserOther /\
+  rlp_decode_list w_list_overflow2 = Err UserOther /\
+  rlp_decode_list w_list_nc1 = Err UserOther.
+Proof. exact former_witnesses_rejected. Qed.
+Print Assumptions C46_former_witnesses_rejected.
 
 (* ---- non-vacuity ---- *)
 
@@ -156,21 +94,10 @@ Example C46_ex_roundtrip :
     = Ok (map encode [Str [1]; Str [200]; Lst [Str []; Str (repeat 9 60)]]).
 Proof. vm_compute. repeat split. Qed.
 
-(* inputs satisfying the guards of the partial theorems, with each kind of outcome *)
-Example C46_ex_guards :
-  (~ string_crash [130; 1] /\ no_huge_len [130; 1] /\ rlp_decode_string [130; 1] = Err UserOther) /\
-  (~ string_crash [129; 5] /\ rlp_decode_string [129; 5] = Err UserOther) /\
-  (~ string_crash [184; 1; 0] /\ rlp_decode_string [184; 1; 0] = Err UserOther) /\
-  (no_huge_len [194; 1; 2] /\ rlp_decode_list [194; 1; 2] = Ok [[1]; [2]]) /\
-  (no_huge_len [194; 1] /\ rlp_decode_list [194; 1] = Err UserOther).
-Proof.
-  repeat split; try reflexivity;
-    try (apply short_no_huge_len; vm_compute; reflexivity);
-    try (apply short_no_string_crash; [vm_compute; reflexivity|discriminate]).
-Qed.
-
-(* the accepted non-canonical list and what the property requires on it *)
-Example C46_ex_nc1 :
-  rlp_decode_list [194; 129; 5] = Ok [[129; 5]] /\ required_list [194; 129; 5] = Err UserOther /\
-  rlp_decode_string [129; 5] = Err UserOther.
+(* each kind of outcome occurs *)
+Example C46_ex_outcomes :
+  rlp_decode_string [130; 1] = Err UserOther /\ rlp_decode_string [129; 5] = Err UserOther /\
+  rlp_decode_string [184; 1; 0] = Err UserOther /\ rlp_decode_string [129; 128] = Ok [128] /\
+  rlp_decode_list [194; 1; 2] = Ok [[1]; [2]] /\ rlp_decode_list [194; 1] = Err UserOther /\
+  rlp_decode_list [194; 129; 200] = Ok [[129; 200]] /\ rlp_decode_list [194; 129; 5] = Err UserOther.
 Proof. vm_compute. repeat split. Qed.
